@@ -1386,6 +1386,43 @@ Proof.
   - destruct (node_enc H x); [right|]; apply IH, Hc.
 Qed.
 
+(* ------------------------------------------------------------------ canonical tries (C06) are well-formed *)
+
+(* the size/value guard on its own *)
+Fixpoint sized (n : node) : Prop :=
+  match n with
+  | NValue v => val_ok v
+  | NShort k c => small k /\ sized c
+  | NFull cs =>
+      (fix all (l : list node) : Prop :=
+         match l with [] => True | c :: r => sized c /\ all r end) cs
+  | _ => True
+  end.
+
+Lemma sized_full cs : sized (NFull cs) <-> Forall sized cs.
+Proof.
+  cbn [sized]. induction cs as [|c cs IH]; [split; constructor|].
+  split.
+  - intros [Hc Hr]. constructor; [exact Hc|apply IH, Hr].
+  - intros Hf. inversion Hf; subst. split; [assumption|apply IH; assumption].
+Qed.
+
+(* every canonical trie (what Update/Delete histories build: OpsProofs.can, C06)
+   with non-empty values and keys/values below the size guard is [pwf] *)
+Theorem can_pwf n : can n -> sized n -> pwf n.
+Proof.
+  induction n as [| |k c IH|cs IH|] using node_ind'; intros Hc Hs; try solve [inversion Hc].
+  - destruct Hs as [Sk Sc]. inversion Hc as [k0 v Hk|k0 cs0 Hk Kne Hcf|]; subst.
+    + apply pwf_leaf; [exact Hk|exact Sk|exact Sc].
+    + apply pwf_ext; [exact Hk|exact Kne|exact Sk|apply IH; assumption].
+  - apply sized_full in Hs. rewrite Forall_forall in Hs, IH.
+    inversion Hc as [| |cs0 HL Hch H16 Hcnt]; subst. apply pwf_full; [exact HL| |].
+    + intros i c Hi Hlt. destruct (Hch i c Hi Hlt) as [->|Hcc]; [left; reflexivity|right].
+      pose proof (nth_error_In _ _ Hi) as Hin. apply IH; [exact Hin|exact Hcc|apply Hs, Hin].
+    + intros c Hi. destruct (H16 c Hi) as [->|[v ->]]; [left; reflexivity|right].
+      exists v. split; [reflexivity|]. exact (Hs _ (nth_error_In _ _ Hi)).
+Qed.
+
 (* ------------------------------------------------------------------ a concrete instance (non-vacuity) *)
 
 (* a 32-byte "hash" good enough to be collision free on the example's five
